@@ -52,7 +52,9 @@ META = {
                 'overridden by the write set; first write attempt takes the lock; parent write under lock fails at timeout=0)',
                 'CPython weakref/GC: an instance dies when neither the application nor a strong cache entry references it '
                 '(harness runs gc.collect() after every drop/cull)'],
-    'modelled': ['cascading deletes (cascade=True / \'null\' foreign keys) through a transaction are outside the Lean model: a separate '
+    'modelled': ['lazyUpdate classes live in a model of their own (Model/TxLazy.lean: pending set per instance, cache membership as one '
+                 'flag), tied by its own correspondence stream; eager and lazy instances are not mixed in one history',
+                 'cascading deletes (cascade=True / \'null\' foreign keys) through a transaction are outside the Lean model: a separate '
                  'oracle-only stream checks isolation, commit = view and rollback over all tables with the raw observer',
                  'cull timing: the harness observes which keys a real cull moved and feeds `weaken`/`purge` steps to the model',
                  'only eager classes with cached values, no joins/foreign keys, explicit ids',
@@ -929,6 +931,287 @@ def report_cascade(ctx, dc, ops, fails):
         ctx.oracle_fail(k2, what, {'cascade': True, 'dc': dc, 'ops': [list(o) for o in small]})
 
 
+# -------------------------------------------------------------------- lazyUpdate classes: pending (unsynced) assignments
+class LazyWorld:
+    """a lazyUpdate class under a transaction: assignments stay pending until syncUpdate(); correspondence with
+    Model/TxLazy.lean (driver lines `L ...`) and an oracle of its own (raw observer, the transaction's queryAll, and the
+    assignments the harness itself issued)"""
+
+    def __init__(self):
+        e = env()
+        if 'lazy' not in e:
+            from sqlobject import SQLObject, IntCol
+
+            class meta:
+                lazyUpdate = True
+            e['lazy'] = type('C07Lz', (SQLObject,), {'n': IntCol(), 'm': IntCol(), 'sqlmeta': meta})
+        e['count'][0] += 1
+        self.cls = e['lazy']
+        self.path = os.path.join(e['dir'], 'l%d.db' % e['count'][0])
+        self.conn = sqlo.file_conn(self.path, timeout=0)
+        self.cls._connection = self.conn
+        self.cls.createTable()
+        self.table = self.cls.sqlmeta.table
+        self.raw = sqlite3.connect(self.path, isolation_level=None, timeout=0)
+        self.t = self.conn.transaction()
+        self.objs = {'P': [], 'T': []}
+        self.keyof = {'P': [], 'T': []}
+        self.att = {'P': [], 'T': []}           # reference: the unchanged code's cache would hand out this instance
+        self.pend = {'P': [], 'T': []}          # reference: assignments issued and not yet synced / dropped
+        self.first_read = {'P': {}, 'T': {}}    # instance -> 'rollback' | 'commit': its next read must show the view
+        self.obsolete = False
+        self.fails = []
+        self.lines = ['L init']
+        self.impl = ['ok']
+        self.raw_now = self.rows(self.raw.execute)
+        self.view_now = self.tx_rows()
+
+    def close(self):
+        try:
+            self.objs = {'P': [], 'T': []}
+            try:
+                self.t.rollback()
+            except Exception:
+                pass
+            self.t = None
+            self.raw.close()
+            self.conn.close()
+        finally:
+            for suffix in ('', '-journal'):
+                try:
+                    os.unlink(self.path + suffix)
+                except OSError:
+                    pass
+
+    def rows(self, q):
+        r = q('SELECT id, n, m FROM %s' % self.table)
+        r = r.fetchall() if hasattr(r, 'fetchall') else r
+        return dict((x[0], tuple(x[1:])) for x in r)
+
+    def tx_rows(self):
+        try:
+            return self.rows(self.t.queryAll)
+        except AssertionError:
+            return None
+        except Exception as e:
+            self.fails.append((None, 'a query through the transaction fails with %s' % type(e).__name__, 'lazy-refusal-kind'))
+            return None
+
+    def index_of(self, sd, obj, k):
+        for j, o in enumerate(self.objs[sd]):
+            if o is obj:
+                return j
+        self.objs[sd].append(obj)
+        self.keyof[sd].append(k)
+        self.att[sd].append(True)
+        self.pend[sd].append({})
+        return len(self.objs[sd]) - 1
+
+    def do(self, op):
+        kind = op[0]
+        sd = op[1] if kind in ('get', 'assign', 'sync', 'read', 'expire') else ('P' if kind == 'insert' else 'T')
+        raw_before, view_before, was_obsolete = self.raw_now, self.view_now, self.obsolete
+        kw = {'connection': self.t} if sd == 'T' else {}
+        line = 'L ' + ' '.join(str(x) for x in op)
+        j = op[2] if kind in ('assign', 'sync', 'read', 'expire') else None
+        if j is not None and j >= len(self.objs[sd]):
+            return                                   # only after shrinking
+        try:
+            if kind == 'insert':
+                self.raw.execute('INSERT INTO %s (id, n, m) VALUES (%d, %d, %d)' % (self.table, op[1], op[2], op[3]))
+                ans = 'ok'
+            elif kind == 'get':
+                ans = 'inst %d' % self.index_of(sd, self.cls.get(op[2], **kw), op[2])
+            elif kind == 'assign':
+                setattr(self.objs[sd][j], COLS[op[3]], op[4])
+                ans = 'ok'
+            elif kind == 'sync':
+                self.objs[sd][j].syncUpdate()
+                ans = 'ok'
+            elif kind == 'read':
+                ans = 'val %d' % getattr(self.objs[sd][j], COLS[op[3]])
+            elif kind == 'expire':
+                self.objs[sd][j].expire()
+                ans = 'ok'
+            elif kind == 'commit':
+                self.t.commit(close=bool(op[1]))
+                ans = 'ok'
+            elif kind == 'rollback':
+                self.t.rollback()
+                ans = 'ok'
+            elif kind == 'begin':
+                self.t.begin()
+                ans = 'ok'
+        except sqlite3.IntegrityError:
+            ans = 'Duplicate'
+        except sqlite3.OperationalError:
+            ans = 'Locked'
+        except Exception as e:
+            ans = exc(e)
+        self.lines.append(line)
+        self.impl.append(ans)
+        self.raw_now = self.rows(self.raw.execute)
+        self.view_now = self.tx_rows()
+        self.lines.append('L dump')
+        self.impl.append('db%s | view%s' % (fmt_rows(self.raw_now), ' obsolete' if self.view_now is None else fmt_rows(self.view_now)))
+        self.oracle(op, kind, sd, j, ans, raw_before, view_before, was_obsolete)
+
+    def oracle(self, op, kind, sd, j, ans, raw_before, view_before, was_obsolete):
+        raw, view = self.raw_now, self.view_now
+        if kind == 'commit' and ans == 'ok' and not was_obsolete and op[1]:
+            self.obsolete = True
+        elif kind == 'rollback' and ans == 'ok':
+            self.obsolete = True
+        elif kind == 'begin' and ans == 'ok':
+            self.obsolete = False
+        if (view is None) != self.obsolete:
+            self.fails.append((None, 'transaction state and refusal disagree after %s' % kind, 'lazy-obsolete-flag'))
+        # isolation: nothing on the transaction side short of commit — lazy assignments and syncUpdate included — changes
+        # the committed rows
+        if sd == 'T' and not (kind == 'commit' and not was_obsolete) and raw != raw_before:
+            self.fails.append((None, 'committed rows changed by transaction-side %s: %s -> %s' % (kind, fmt_rows(raw_before), fmt_rows(raw)),
+                               'lazy-isolation'))
+        if kind == 'commit' and not was_obsolete and ans == 'ok' and raw != view_before:
+            self.fails.append((None, 'after commit the committed rows are %s, the transaction saw %s' % (fmt_rows(raw), fmt_rows(view_before)),
+                               'lazy-commit-applies-view'))
+        if kind == 'begin' and ans == 'ok' and view != raw:
+            self.fails.append((None, 'after rollback/close + begin the transaction sees %s, committed %s' % (fmt_rows(view), fmt_rows(raw)),
+                               'lazy-begin-view'))
+        # a lazy assignment sends nothing
+        if kind == 'assign' and (raw != raw_before or view != view_before):
+            self.fails.append((None, 'a lazy assignment changed the database', 'lazy-assign-writes'))
+        # bookkeeping of what the harness itself did (reference of the unchanged code's cache membership, as in World)
+        if kind == 'assign' and ans == 'ok':
+            self.pend[sd][j][op[3]] = op[4]
+            self.first_read[sd].pop(j, None)
+        if kind == 'expire' and ans == 'ok':
+            self.pend[sd][j] = {}
+            for i in range(len(self.att[sd])):
+                if self.keyof[sd][i] == self.keyof[sd][j]:
+                    self.att[sd][i] = False
+        # syncUpdate writes exactly the assignments issued since the instance was last synced / expired / rolled back
+        if kind == 'sync' and ans == 'ok':
+            ref_b = (raw_before if sd == 'P' else view_before) or {}
+            ref_a = (raw if sd == 'P' else view) or {}
+            k = self.keyof[sd][j]
+            want = dict(ref_b)
+            if k in want and self.pend[sd][j]:
+                row = list(want[k])
+                for c, v in self.pend[sd][j].items():
+                    row[c] = v
+                want[k] = tuple(row)
+            if ref_a != want:
+                self.fails.append((None, 'syncUpdate through %s instance %d (assignments since its last sync/expiry/rollback: %s) '
+                                   'turned the rows%s into%s, expected%s' % (sd, j, self.pend[sd][j], fmt_rows(ref_b), fmt_rows(ref_a),
+                                                                             fmt_rows(want)), 'lazy-sync-writes'))
+            self.pend[sd][j] = {}
+        if kind == 'rollback' and ans == 'ok' and not was_obsolete:
+            for i in range(len(self.att['T'])):
+                if self.att['T'][i]:
+                    self.att['T'][i] = False
+                    self.pend['T'][i] = {}
+                    self.first_read['T'][i] = 'rollback'
+        if kind == 'commit' and ans == 'ok' and not was_obsolete:
+            reached = set(self.keyof['T'][i] for i in range(len(self.att['T'])) if self.att['T'][i])
+            for i in range(len(self.att['P'])):
+                if self.att['P'][i] and self.keyof['P'][i] in reached:
+                    self.att['P'][i] = False
+                    self.pend['P'][i] = {}
+                    self.first_read['P'][i] = 'commit'
+        # after rollback (+ begin) the transaction's instances show the pre-transaction state; after commit the parent's
+        # instances show the committed state: the first read of an instance the expiry reached
+        if kind == 'read' and j in self.first_read[sd] and ans != 'Assert':
+            why = self.first_read[sd].pop(j)
+            ref = raw_before if sd == 'P' else view_before
+            row = (ref or {}).get(self.keyof[sd][j])
+            want = 'NotFound' if row is None else 'val %d' % row[op[3]]
+            if ans != want:
+                self.fails.append((None, 'the first read of %s instance %d after the %s that expired it answered %s, the %s holds %s'
+                                   % (sd, j, why, ans, 'database' if sd == 'P' else 'transaction view', want), 'lazy-stale-after-' + why))
+
+
+def run_lazy(dc, ops):
+    w = LazyWorld()
+    try:
+        for op in ops:
+            w.do(tuple(op))
+        return w.lines, w.impl, w.fails
+    finally:
+        w.close()
+
+
+def gen_lazy(rng, length):
+    w = LazyWorld()
+    ops = []
+    try:
+        for _ in range(length):
+            sd = 'T' if rng.random() < 0.7 else 'P'
+            ref = w.raw_now if (sd == 'P' or w.view_now is None) else w.view_now
+            have = len(w.objs[sd])
+            r = rng.random()
+            if w.obsolete and rng.random() < 0.6:
+                op = ('begin',)
+            elif r < 0.10 or not w.raw_now:
+                op = ('insert', rng.randint(1, 3), rng.randint(0, 9), rng.randint(0, 9))
+            elif r < 0.25 or not have:
+                op = ('get', sd, rng.choice(sorted(ref)) if ref and rng.random() < 0.9 else rng.randint(1, 3))
+            elif r < 0.50:
+                op = ('assign', sd, rng.randrange(have), rng.randrange(NCOLS), rng.randint(10, 99))
+            elif r < 0.62:
+                op = ('sync', sd, rng.randrange(have))
+            elif r < 0.78:
+                op = ('read', sd, rng.randrange(have), rng.randrange(NCOLS))
+            elif r < 0.81:
+                op = ('expire', sd, rng.randrange(have))
+            elif r < 0.89:
+                op = ('commit', 1 if rng.random() < 0.2 else 0)
+            elif r < 0.97:
+                op = ('rollback',)
+            else:
+                op = ('begin',)
+            ops.append(op)
+            w.do(op)
+        for sd in 'PT':
+            for j in range(len(w.objs[sd])):
+                for c in range(NCOLS):
+                    op = ('read', sd, j, c)
+                    ops.append(op)
+                    w.do(op)
+        return ops, w.lines, w.impl, w.fails
+    finally:
+        w.close()
+
+
+LAZY_CORPUS = [
+    ('unsynced assignment through the transaction, rollback, begin: gone from the instance, never written',
+     [('insert', 1, 1, 0), ('get', 'T', 1), ('assign', 'T', 0, 0, 5), ('read', 'T', 0, 0), ('rollback',), ('begin',), ('read', 'T', 0, 0),
+      ('sync', 'T', 0), ('commit', 0), ('get', 'P', 1), ('read', 'P', 0, 0)]),
+    ('synced then rolled back; synced then committed',
+     [('insert', 1, 1, 0), ('get', 'T', 1), ('assign', 'T', 0, 1, 7), ('sync', 'T', 0), ('get', 'P', 1), ('read', 'P', 0, 1), ('rollback',),
+      ('begin',), ('read', 'T', 0, 1), ('get', 'T', 1), ('assign', 'T', 1, 1, 8), ('sync', 'T', 1), ('commit', 0), ('read', 'P', 0, 1)]),
+    ('parent instance with a pending assignment is expired by the commit that touches its row',
+     [('insert', 2, 3, 4), ('get', 'P', 2), ('assign', 'P', 0, 0, 9), ('get', 'T', 2), ('assign', 'T', 0, 1, 6), ('sync', 'T', 0),
+      ('sync', 'P', 0), ('commit', 0), ('read', 'P', 0, 0), ('sync', 'P', 0), ('read', 'P', 0, 1)]),
+    ('finished transaction: lazy assignment still accepted, syncUpdate refused',
+     [('insert', 1, 1, 0), ('get', 'T', 1), ('commit', 1), ('assign', 'T', 0, 0, 5), ('sync', 'T', 0), ('read', 'T', 0, 0), ('begin',),
+      ('sync', 'T', 0), ('commit', 0)]),
+]
+
+
+def report_lazy(ctx, name, ops, lines, impl, fails):
+    outs = ctx.model(lines)
+    if outs is not None:
+        for idx, (l, m, i) in enumerate(zip(lines, outs, impl)):
+            if not ctx.compare('lazyUpdate histories (answers and rows after every step): model TxLazy = implementation',
+                               {'lazy': [list(o) for o in ops], 'step': idx, 'request': l}, m, i):
+                break
+    for key, what, detail in fails[:1]:
+        _unknown[0] += 1
+        small = shrink_generic(run_lazy, True, ops, detail) if _unknown[0] <= 3 else ops
+        k2 = 'C07:%s:%s' % (detail, '-'.join(o[0] + (o[1] if o[0] in ('get', 'assign', 'sync', 'read', 'expire') else '') for o in small))
+        ctx.oracle_fail(k2, what, {'lazy': True, 'dc': True, 'ops': [list(o) for o in small]})
+
+
 def shrink(dc, ops, detail):
     """greedy one-at-a-time removal keeping an unlisted failure of the same kind"""
     def bad(o):
@@ -1013,6 +1296,18 @@ def run(ctx):
         ctx.case(('cascade', tuple(answers)), nontrivial=any(o[0] == 'destroy' for o in ops),
                  sample={'cascade': [list(o) for o in ops[:10]], 'answers': answers[-2:]}, kind='cascade history')
         report_cascade(ctx, dc, ops, fails)
+    # lazyUpdate class: pending assignments, syncUpdate through transaction and parent instances
+    for name, ops in LAZY_CORPUS:
+        lines, impl, fails = run_lazy(True, ops)
+        ctx.case(('lazy-corpus', name), sample={'lazy': name, 'answers': impl[-2:]}, kind='lazy corpus')
+        report_lazy(ctx, name, ops, lines, impl, fails)
+    for h in range(ctx.budget(300, 3000)):
+        if _unknown[0] >= 12:
+            break
+        ops, lines, impl, fails = gen_lazy(rng, rng.randint(4, 22))
+        ctx.case(('lazy', tuple(lines)), nontrivial=any(o[0] in ('rollback', 'commit') for o in ops),
+                 sample={'lazy': [list(o) for o in ops[:10]], 'last': impl[-1]}, kind='lazy history')
+        report_lazy(ctx, 'random', ops, lines, impl, fails)
     n = ctx.budget(1500, 11000)
     for h in range(n):
         if _unknown[0] >= 12:
@@ -1033,6 +1328,9 @@ def run(ctx):
 
 def replay(case):
     env()
+    if case.get('lazy'):
+        lines, impl, fails = run_lazy(True, [tuple(o) for o in case['ops']])
+        return not fails, '\n'.join('%-22s -> %s' % (l, i) for l, i in zip(lines, impl)) + '\n' + '\n'.join('ORACLE: %s' % w for _, w, _ in fails)
     if case.get('cascade'):
         answers, fails = run_cascade(case['dc'], [tuple(o) for o in case['ops']])
         return not fails, '\n'.join(answers + ['ORACLE: %s' % w for _, w, _ in fails])
